@@ -42,8 +42,7 @@ func check(c Case) evid.Outcome {
 	defer r.Close()
 	o := evid.Outcome{}
 	o.Labels = append(o.Labels, h.Flags...)
-	frozen := map[int]int{}   // set -> step of the first execution
-	analysed := map[int]int{} // set -> step of the first execution that reached analysis
+	frozen := map[int]int{} // set -> step of the first execution
 	first := map[string]hist.Result{}
 	firstAt := map[string]int{}
 	execSets := map[int]bool{}
@@ -53,9 +52,10 @@ func check(c Case) evid.Outcome {
 		if res.Panic != "" {
 			return evid.Viol("step %d %+v panicked: %s\nhistory: %+v", i, op, res.Panic, h.Ops)
 		}
-		if op.Kind == "new" && !res.Nil {
+		if op.Kind == "new" && !res.Nil && !hist.Frozen(h, results, i) {
 			// New(existing name) is the documented redefinition (the template is reset): results recorded for this
-			// set are no longer the reference for later calls; the fresh-set replay covers it
+			// set are no longer the reference for later calls; the fresh-set replay covers it. (On a set that has
+			// been executed New changes nothing: F-newfrozen.)
 			for k := range first {
 				if strings.HasPrefix(k, fmt.Sprint(op.Set, "|")) {
 					delete(first, k)
@@ -65,7 +65,7 @@ func check(c Case) evid.Outcome {
 		switch {
 		case op.Kind == "clone":
 			if !res.Nil {
-				if at, ok := analysed[op.Set]; ok && res.Err == "" {
+				if at, ok := frozen[op.Set]; ok && res.Err == "" {
 					return evid.Viol("step %d: Clone succeeded although a template of the set was executed at step %d\nhistory: %+v", i, at, h.Ops)
 				}
 				nsets++
@@ -82,9 +82,6 @@ func check(c Case) evid.Outcome {
 		case hist.IsExec(op.Kind) && !res.Nil:
 			if _, ok := frozen[op.Set]; !ok {
 				frozen[op.Set] = i
-			}
-			if _, ok := analysed[op.Set]; !ok && res.Class != "other" {
-				analysed[op.Set] = i
 			}
 			execSets[op.Set] = true
 			name := nameOf(h, op)
@@ -118,7 +115,7 @@ func check(c Case) evid.Outcome {
 }
 
 func gen(t *rapid.T) Case {
-	return Case{*hist.Gen(t, hist.Options{CSP: true, MaxOps: 16, BadMembers: rapid.IntRange(0, 3).Draw(t, "bad") == 0, Unbalanced: rapid.IntRange(0, 3).Draw(t, "unbalanced") == 0, ReadOnlyOps: true, ParseAfter: true, Clones: true, FileOps: true})}
+	return Case{*hist.Gen(t, hist.Options{CSP: true, MaxOps: 16, MixedHelpers: rapid.Bool().Draw(t, "mixedh"), BadMembers: rapid.IntRange(0, 3).Draw(t, "bad") == 0, Unbalanced: rapid.IntRange(0, 3).Draw(t, "unbalanced") == 0, ReadOnlyOps: true, ParseAfter: true, Clones: true, FileOps: true})}
 }
 
 func TestPropFreeze(t *testing.T) { evid.RunProp(t, "freeze", 1, gen, check) }
